@@ -120,6 +120,39 @@ func runC19(c *Ctx) {
 			r.Check("C19.1", "configure-unconditional", len(extra) == 0, c.pos(call), fmt.Sprintf("the default cache is configured whenever directories were given (extra conditions %v)", extra))
 		}
 	}
+	// exit status of the initialisation: non-zero exactly for schema/configuration
+	// failures and when the configured cache reports errors (GetErrors(), which
+	// includes directory errors)
+	if cfgFn != nil {
+		sawCacheErrors := false
+		for _, call := range ir.Calls(cfgFn) {
+			f := call.Common().StaticCallee()
+			if f == nil || f.String() != "os.Exit" {
+				continue
+			}
+			gs := c.exprGuardsOf(cfgFn, call.(ssa.Instruction))
+			kind := ""
+			for _, g := range gs {
+				switch {
+				case strings.HasPrefix(g, "len((*Cache).GetErrors(GetDefaultCache())) > 0") || strings.HasPrefix(g, "len((*Cache).GetErrors(GetDefaultCache())) != 0") || strings.HasPrefix(g, "len(GetErrors()) > 0") || strings.HasPrefix(g, "len(GetErrors()) != 0"):
+					kind = "cache-errors"
+				case strings.HasPrefix(g, "Load(") && strings.HasSuffix(g, "#1 != nil"):
+					if kind == "" {
+						kind = "schema-load"
+					}
+				case strings.HasPrefix(g, "Configure(") && strings.HasSuffix(g, "!= nil"):
+					if kind == "" {
+						kind = "configure"
+					}
+				}
+			}
+			if kind == "cache-errors" {
+				sawCacheErrors = true
+			}
+			r.Check("C19.2", "init-exit:"+kind, kind != "", c.pos(call), fmt.Sprintf("an exit in %s is due to a schema/configuration failure or to the cache's error report GetErrors() (conditions %v)", c.U.RelName(cfgFn), gs))
+		}
+		r.Check("C19.2", "init-exit-on-cache-errors", sawCacheErrors, c.U.Pos(cfgFn.Pos()), c.U.RelName(cfgFn)+" exits non-zero when the configured cache reports errors (len(GetErrors()) > 0: file AND directory errors)")
+	}
 	// (d) every cache source
 	nSrc := 0
 	for _, fn := range append(append([]*ssa.Function{}, cmdFns...), c.U.RepoFuncs("cdimain")...) {
